@@ -819,6 +819,7 @@ class MBXML:
                                 attr_id
                             ]
                         )
+                        attr_config.token_id = attr_id
                         (attr_config.value, idx) = cls.read_uintvar(data, idx)
                         newattrs.append(attr_config)
                     token_config.attributes = newattrs
